@@ -58,6 +58,14 @@ MC_CutsNone == { NoCut }
 (* (MC_StepStore: x is a series of the main and of the step group)                                            *)
 MC_AsksX == { << "main", "x" >> }
 
+(* every group has its own k axis: the main run counts 0,1,2; the step trace of step 2 carries the constant   *)
+(* column k = 2; the initial-steady-state run counts up to 0.  A cutoff counts stored points in every group.  *)
+MC_KAxisStore == [main    |-> [k |-> << 0, 1, 2 >>,    x |-> << 4, 5, 6 >>],
+                  step    |-> [k |-> << 2, 2, 2 >>,    x |-> << 8, 9, 10 >>],
+                  initial |-> [k |-> << -2, -1, 0 >>,  x |-> << 20, 21, 22 >>]]
+MC_AsksKAxis == { << "step", "x" >>, << "initial", "x" >> }
+MC_AsksKAxisAll == { << "main", "x" >>, << "step", "x" >>, << "initial", "x" >>, << "initial", "k" >> }
+
 MC_RMain == { "main" }
 MC_RMainStep == { "main", "step" }
 
